@@ -18,6 +18,7 @@ func init() { register("C04", runC04, replayC04) }
 type c04State struct {
 	n       int
 	idx     int
+	wsn     int
 	guarded bool
 }
 
@@ -25,6 +26,26 @@ type c04State struct {
 // key or value, with the reference unescape, plus the tape length words.
 // layout tags the (length, offset) class for the distinct count.
 func (w *W) c04Judge(st *c04State, g string, doc []byte, tail bool) {
+	w.c04JudgeOne(st, g, doc, tail)
+	// every other document again with insignificant white space in front of it (and sometimes
+	// behind): the document, and with it every in-place string, then starts at an offset into the
+	// caller's buffer (Parse trims; offsets on the tape are relative to what it trimmed to)
+	st.wsn++
+	if st.wsn%2 == 0 {
+		lead := []int{1, 2, 3, 7, 31, 32, 33, 63, 64, 65}[(st.wsn/2)%10]
+		b := make([]byte, 0, len(doc)+lead+3)
+		for i := 0; i < lead; i++ {
+			b = append(b, " \t\r\n"[(i+st.wsn)%4])
+		}
+		b = append(b, doc...)
+		for i := 0; i < (st.wsn/2)%4; i++ {
+			b = append(b, " \n\t"[i%3])
+		}
+		w.c04JudgeOne(st, g+"+outer-ws", b, tail)
+	}
+}
+
+func (w *W) c04JudgeOne(st *c04State, g string, doc []byte, tail bool) {
 	st.idx++
 	if !w.mine(st.idx) {
 		return
